@@ -5,7 +5,9 @@ over a pattern alphabet (basename, anchored, multi-segment, dir-only, *, **, ?, 
 escaped #, trailing space); walk roots {repo root, sub}.  Oracle: real `git ls-files -co
 --exclude-standard` in the same tree, with the ignore files above the walk root removed for the git run
 (the property says: from the traversal root down).  With --no-respect-gitignore the listing must
-equal the listing with every .gitignore deleted.
+equal the listing with every .gitignore deleted.  Histories: sequences of 2-3 configurations written
+to one directory path within one process, a new FileResolver per step; every listing must agree with git
+on the configuration present at that moment (nothing remembered about a path may outlive a call).
 """
 from __future__ import annotations
 
@@ -89,6 +91,18 @@ def fm_list(repo, walk_root, respect=True):
     return sorted(os.path.relpath(str(p), real) for p in res)
 
 
+def fresh_tree():
+    """A new directory (new path) holding the fixed tree, for flowmark only: whatever flowmark remembers about a path
+    cannot carry over from one case to the next."""
+    d = tempfile.mkdtemp(prefix="fm-", dir=core.scratch_root())
+    for f in FILES:
+        p = os.path.join(d, f)
+        os.makedirs(os.path.dirname(p), exist_ok=True)
+        with open(p, "w") as fh:
+            fh.write("x\n")
+    return d
+
+
 class Git(Space):
     prop = "C18"
     name = "gitignore-vs-git"
@@ -155,9 +169,13 @@ class Git(Space):
         repo = _repo()
         walk_root = ["", "sub"][root]
         rules = {IGDIRS[d]: [PATS[i] for i in ls] for d, ls in files}
-        set_ignores(repo, rules)
-        got = fm_list(repo, walk_root)
-        nores = fm_list(repo, walk_root, respect=False)
+        tree = fresh_tree()
+        try:
+            set_ignores(tree, rules)
+            got = fm_list(tree, walk_root)
+            nores = fm_list(tree, walk_root, respect=False)
+        finally:
+            shutil.rmtree(tree, ignore_errors=True)
         # git: ignore files above the walk root do not count
         git_rules = {d: r for d, r in rules.items() if not walk_root or d == walk_root or d.startswith(walk_root + "/")}
         set_ignores(repo, git_rules)
@@ -182,5 +200,66 @@ class Git(Space):
         return Outcome(viol=viol, tags=tags, obs=hash(tuple(got)))
 
 
+class GitHistory(Space):
+    """Sequences of configurations on ONE directory path within one process: write the ignore files, list, rewrite them,
+    list again with a new FileResolver, ...; every listing must agree with git on the configuration present at that moment."""
+    prop = "C18"
+    name = "gitignore-history"
+
+    def __init__(self, tier):
+        self.tier = tier
+        self.floors = {"listing-changes-between-steps": 100}
+        reps = [PATS.index(p) for p in ("a.md", "sub/", "*.md", "!a.md", "**/a.md", "b.md")]
+        self.cfgs = [()] + [((d, (i,)),) for d in (0, 1) for i in reps] + [((0, (PATS.index("*.md"),)), (1, (PATS.index("!a.md"),)))]
+        self.depth = 2 if tier == "quick" else 3
+
+    def cases(self):
+        n = len(self.cfgs)
+        for steps in itertools.product(range(n), repeat=2):
+            for root in (0, 1):
+                yield (steps, root)
+        if self.depth >= 3:
+            for steps in itertools.product(range(n), repeat=3):
+                yield (steps, 0)
+
+    def describe(self, case):
+        steps, root = case
+        return {"steps": [{(IGDIRS[d] or ".") + "/.gitignore": [PATS[i] for i in ls] for d, ls in self.cfgs[c]} for c in steps],
+                "walk_root": ["", "sub"][root] or ".", "tree": FILES}
+
+    def smaller(self, case):
+        steps, root = case
+        for x in range(len(steps) - 1):
+            yield (steps[:x] + steps[x + 1:], root)
+        if root:
+            yield (steps, 0)
+
+    def evaluate(self, case):
+        steps, root = case
+        repo = _repo()
+        walk_root = ["", "sub"][root]
+        tree = fresh_tree()
+        viol, tags, seen = [], [], []
+        try:
+            for pos, c in enumerate(steps):
+                rules = {IGDIRS[d]: [PATS[i] for i in ls] for d, ls in self.cfgs[c]}
+                set_ignores(tree, rules)
+                got = fm_list(tree, walk_root)
+                git_rules = {d: r for d, r in rules.items() if not walk_root or d == walk_root or d.startswith(walk_root + "/")}
+                set_ignores(repo, git_rules)
+                want = git_list(repo, walk_root)
+                seen.append(tuple(want))
+                if got != want and not viol:
+                    viol.append(("listing-depends-on-earlier-configuration" if pos else "first-listing-wrong",
+                                 {"step": pos, "gitignore_now": rules, "flowmark": got, "git": want,
+                                  "earlier": self.describe((steps[:pos], root))["steps"]}))
+        finally:
+            shutil.rmtree(tree, ignore_errors=True)
+            set_ignores(repo, {})
+        if len(set(seen)) > 1:
+            tags.append("listing-changes-between-steps")
+        return Outcome(viol=viol, tags=tags, obs=hash(tuple(seen)))
+
+
 def spaces(tier):
-    return [Git(tier)]
+    return [Git(tier), GitHistory(tier)]
